@@ -16,39 +16,46 @@ import OptiVerif.Model.Wire
 namespace OptiVerif.Sync
 open OptiVerif
 
+/-! The definitions are written once over a number type `R` (only `+ − × 0`, casts of naturals and a decidable `<`):
+they are *executed* at `Int` (exact waveforms) and at `Rat` (noisy records: every double is a rational) and *proved
+about* over every linearly ordered commutative ring (`Lemmas/PpgSync*.lean`). -/
+
+section
+variable {R : Type} [Add R] [Mul R] [OfNat R 0]
+
 /-- `np.kron(slots, np.ones(sps))` -/
-def kron (tx : List Int) (sps : Nat) : List Int := tx.flatMap (fun b => List.replicate sps b)
+def kron (tx : List R) (sps : Nat) : List R := tx.flatMap (fun b => List.replicate sps b)
 
 /-- Σ uᵢ·vᵢ over the common prefix -/
-def dot : List Int → List Int → Int
+def dot : List R → List R → R
   | u :: us, v :: vs => u * v + dot us vs
   | _, _ => 0
 
+/-- Σ xᵢ -/
+def total : List R → R
+  | [] => 0
+  | x :: xs => x + total xs
+
 /-- `corr[i] = Σ_j rx[:2l-1][i+j]·w[j]` for the `valid` lags -/
-def corr (rx w : List Int) : List Int :=
+def corr (rx w : List R) : List R :=
   let r := rx.take (2 * w.length - 1)
   (List.range (r.length - w.length + 1)).map (fun i => dot (r.drop i) w)
 
+variable [LT R] [DecidableLT R]
+
 /-- first maximum of `x :: xs` scanned left to right: `(index, value)`; `i` = index of the next element -/
-def argmaxFrom : List Int → Int → Nat → Nat → Nat × Int
+def argmaxFrom : List R → R → Nat → Nat → Nat × R
   | [], best, bi, _ => (bi, best)
   | x :: xs, best, bi, i => if best < x then argmaxFrom xs x i (i + 1) else argmaxFrom xs best bi (i + 1)
 
 /-- `np.argmax` / `np.max` (first maximum); `none` for an empty array -/
-def argmax : List Int → Option (Nat × Int)
+def argmax : List R → Option (Nat × R)
   | [] => none
   | x :: xs => some (argmaxFrom xs x 0 1)
 
-/-- `np.max(corr) < 3*np.std(corr)` decided exactly -/
-def rejects (c : List Int) (mx : Int) : Bool :=
-  let n : Int := c.length
-  let s1 := c.sum
-  let s2 := (c.map (fun x => x * x)).sum
-  decide (mx < 0) || decide (mx * mx * n * n < 9 * (n * s2 - s1 * s1))
-
 /-- the alignment step alone on the waveform `w = signal_tx`: BufferError for short records, otherwise the
     argmax over the lags -/
-def lagW (rx w : List Int) : Except Wire.Err Nat :=
+def lagW (rx w : List R) : Except Wire.Err Nat :=
   if rx.length < w.length then .error .Buffer
   else if w.length = 0 then .error .ValueError
   else
@@ -56,13 +63,22 @@ def lagW (rx w : List Int) : Except Wire.Err Nat :=
     | none => .error .ValueError
     | some (i, _) => .ok i
 
-def syncLag (rx tx : List Int) (sps : Nat) : Except Wire.Err Nat := lagW rx (kron tx sps)
+def syncLag (rx tx : List R) (sps : Nat) : Except Wire.Err Nat := lagW rx (kron tx sps)
 
-structure Out where
+variable [Sub R] [NatCast R]
+
+/-- `np.max(corr) < 3*np.std(corr)` decided exactly -/
+def rejects (c : List R) (mx : R) : Bool :=
+  let n : R := (c.length : Nat)
+  let s1 := total c
+  let s2 := total (c.map (fun x => x * x))
+  decide (mx < 0) || decide (mx * mx * n * n < ((9 : Nat) : R) * (n * s2 - s1 * s1))
+
+structure Out (R : Type) where
   index : Nat
-  signal : List Int
+  signal : List R
 
-def syncW (rx w : List Int) : Except Wire.Err Out :=
+def syncW (rx w : List R) : Except Wire.Err (Out R) :=
   let l := w.length
   if rx.length < l then .error .Buffer
   else if l = 0 then .error .ValueError
@@ -77,11 +93,26 @@ def syncW (rx w : List Int) : Except Wire.Err Out :=
         if s.isEmpty then .error .ValueError          -- electrical_signal refuses an empty array
         else .ok ⟨i, s⟩
 
-/-- `SYNC(signal_rx, slots_tx, sps)` on integer waveforms -/
-def sync (rx tx : List Int) (sps : Nat) : Except Wire.Err Out := syncW rx (kron tx sps)
+/-- `SYNC(signal_rx, slots_tx, sps)` -/
+def sync (rx tx : List R) (sps : Nat) : Except Wire.Err (Out R) := syncW rx (kron tx sps)
+
+end
+
+def ratTok : Wire.P Rat := do
+  let t ← Wire.tok
+  match t.splitOn "/" with
+  | [p] => match p.toInt? with
+    | some n => pure (n : Rat)
+    | none => throw s!"rat:{t}"
+  | [p, q] => match p.toInt?, q.toNat? with
+    | some n, some d => if d == 0 then throw s!"rat:{t}" else pure (mkRat n d)
+    | _, _ => throw s!"rat:{t}"
+  | _ => throw s!"rat:{t}"
 
 -- @handler OptiVerif.Sync.handle
-/-- `ppg.sync <sps> <tx list> <rx list>` → `ok i unique outlen max lhs rhs` (lhs < rhs ⇔ rejected when max ≥ 0);
+/-- `ppg.syncq <sps> <tx list> <rx list of p/q>` → `ok i outlen` | `err E`: the same definitions run over `Rat`
+    (noisy records; every double is a rational).
+    `ppg.sync <sps> <tx list> <rx list>` → `ok i unique outlen max lhs rhs` (lhs < rhs ⇔ rejected when max ≥ 0);
     the harness checks `signal = rx[i : i+outlen]` itself -/
 def handle : List String → Option String
   | "ppg.sync" :: args =>
@@ -101,6 +132,14 @@ def handle : List String → Option String
       match sync rx tx s.toNat with
       | .error e => if rx.length < w.length || w.length = 0 then Wire.err e else s!"err {e} {info}"
       | .ok o => Wire.ok s!"{o.index} {o.signal.length} {info}"
+  | "ppg.syncq" :: args =>
+    some <| match Wire.run (do let s ← Wire.int; let tx ← Wire.list Wire.int; let rx ← Wire.list ratTok; pure (s, tx, rx)) args with
+    | .error e => "bad-op " ++ e
+    | .ok (s, tx, rx) =>
+      if s ≤ 0 then Wire.err .ValueError else
+      match sync rx (tx.map (fun (b : Int) => (b : Rat))) s.toNat with
+      | .error e => Wire.err e
+      | .ok o => Wire.ok s!"{o.index} {o.signal.length}"
   | _ => none
 
 end OptiVerif.Sync
